@@ -7,14 +7,17 @@ RULE = ("one evaluation = one (data set, option vector) pair, distinct by constr
         "restricted to what the vector can express, written with osmium::io::Writer, the file is checked by an independent PBF framing parser "
         "(blob header <= 64 KiB, blob <= 32 MiB, <= 8000 entities per block), read back with osmium::io::Reader and compared in order, type and "
         "every field with carry(D, o), the per-format statement of which fields are carried. Data sets: (ofat) every boundary value of every "
-        "field of node/way/relation/changeset with the other fields at a base value - packed per type and interleaved in 4 feed modes x EVERY "
-        "option vector {osm, osh, osc, pbf, osh.pbf, opl} x dense x blob compression x 32 metadata subsets x locations_on_ways x "
-        "force_visible_flag x {none, gz, bz2} x pool threads {1,2} (7296 vectors), and as 1-, 2- (3-) object sequences x reduced | every vector; "
-        "(prod) all combinations of 2-3 values per field; (blk) 7999/8000/8001 (16001) objects of one type, type alternation; (big) blocks "
-        "whose string table / group data / single object cross 0.95 x 32 MiB and 32 MiB; (hdr) 0..2 header boxes over corner boundary "
-        "coordinates, generator strings; (bbox) PBF header box through the real header encoder/decoder for every 2^s-th fixed-point "
-        "coordinate, s as small as the time allows (box = 4 coordinates per evaluation). Non-trivial = the expected read-back is not empty "
-        "and carries at least one non-default field value.")
+        "field of node/way/relation/changeset with the other fields at a base value - all variants of a type in one sequence x EVERY option "
+        "vector {osm, osh, osc, pbf, osh.pbf, opl} x dense x blob compression x 32 metadata subsets x locations_on_ways x force_visible_flag x "
+        "{none, gz, bz2} x pool threads {1,2} (7296 vectors); all types interleaved in 4 ways of handing buffers to the Writer; every variant "
+        "alone (and, thorough, next to / between base objects) x reduced vector sets; (prod) all combinations of 2-3 values per field; (blk) "
+        "7999/8000/8001 (16001) objects of one type, type alternation; (big) blocks whose string table / group data / single object cross "
+        "0.95 x 32 MiB and 32 MiB; (hdr) 0..2 header boxes over corner boundary coordinates, generator strings; (bbox) one evaluation = one "
+        "header box (4 coordinates) through the real PBF header encoder/decoder, strided sweep over all fixed-point coordinates with the "
+        "stride halved until the time share ends. A failing sequence is reduced to the object that causes it, reported with that selection, "
+        "and run again without it; the first report of a class per process is confirmed by replaying its spec in a fresh process. "
+        "Non-trivial = the expected read-back (objects or header) carries at least one non-default value. write_read_cycles counts the "
+        "Writer/Reader evaluations alone.")
 DEADLINE = {"quick": 240, "thorough": 1500}
 DATA = "/verif/build/C01-data"
 
@@ -44,7 +47,7 @@ def run(ctx):
     _sweep_stale()
     try:
         # every part gets its share of the time that is left (a part that ends early leaves its time to the later ones)
-        parts = [("hdr", 16, 1), ("ofat", 16, 8), ("blk", 16, 2), ("big", 4 if ctx.tier == "quick" else 6, 2), ("prod", 16, 4), ("bbox", 16, 3)]
+        parts = [("hdr", 16, 1), ("ofat", 16, 10), ("blk", 16, 2), ("big", 4 if ctx.tier == "quick" else 6, 2), ("prod", 16, 3), ("bbox", 16, 2)]
         for i, (part, shards, share) in enumerate(parts):
             budget = max(5.0, (ctx.remaining() - 10) * share / sum(p[2] for p in parts[i:]))
             ctx.run_harness(exe, ["--part", part, "--budget", "%.0f" % budget], shards=shards)
@@ -55,6 +58,8 @@ def run(ctx):
                "the noncharacters U+FFFE/U+FFFF (XML 1.0 cannot express them); the uint32 maximum as changeset id is left out for XML because "
                "/repo/test/t/osm/test_types_from_string.cpp pins its rejection; objects outside a vector's domain are left out of the sequence "
                "written with that vector and counted")
+    ctx.assume("PBF files with outer gzip/bzip2 compression that Reader{filename} rejects are read again from a memory buffer so that their content "
+               "is still compared; the rejection is reported as a class of its own")
     ctx.assume("locations with exactly one coordinate equal to INT32_MAX (the 'undefined' marker) are not enumerated; anonymous changesets "
                "(uid 0) have an empty user name; header and changeset boxes have valid corners with bottom-left <= top-right; a deleted node "
                "read from PBF has no location (pinned by test_reader.cpp 'zero node positions in history (PBF)')")
